@@ -10,6 +10,7 @@ mod c13;
 mod c14;
 mod c17;
 mod c18;
+mod c19;
 mod c20;
 mod pki;
 mod rauth;
@@ -62,6 +63,7 @@ fn main() {
         "C14" => c14::run(&mut ctx),
         "C17" => c17::run(&mut ctx),
         "C18" => c18::run(&mut ctx),
+        "C19" => c19::run(&mut ctx),
         other => { eprintln!("unknown property {other}"); std::process::exit(2); }
     }
     let rep = ctx.report(&property, start.elapsed().as_secs_f64());
